@@ -555,6 +555,22 @@ theorem generated_tables_are_the_definition (c : CEval) (r : Nat) :
   · unfold defaultRtol; rw [abs_le]; constructor <;> norm_num
   · unfold defaultAtol; rw [abs_le]; constructor <;> norm_num
 
+/-- **The single-sample guard.**  Every per-sample report starts with `if sample.shape[0] != 1: raise ValueError`: with any
+    number of rows other than one `iter_constraint_data`, `iter_violations` (hence `violations`) and `check_feasible` raise
+    before yielding anything; with exactly one row they are the reports of the theorems above. -/
+theorem single_sample_guard (nrows : Nat) (skip clip : Bool) (labels : Option (List Label)) (atol rtol : Rat) (cs : List CEval) (r : Nat) :
+    (nrows ≠ 1 → iterConstraintDataG nrows labels cs r = ([], true) ∧ iterViolationsG nrows skip clip labels cs r = ([], true)
+        ∧ checkFeasibleG nrows atol rtol cs r = none)
+    ∧ (nrows = 1 → iterConstraintDataG nrows labels cs r = iterConstraintDataL labels cs r
+        ∧ iterViolationsG nrows skip clip labels cs r = (reportDef skip clip (selectCons labels cs).1 r, (selectCons labels cs).2)
+        ∧ checkFeasibleG nrows atol rtol cs r = some (feasible atol rtol cs r)) := by
+  refine ⟨fun h => ?_, fun h => ?_⟩
+  · simp [iterConstraintDataG, iterViolationsG, checkFeasibleG, h]
+  · subst h
+    refine ⟨by simp [iterConstraintDataG], ?_, by simp [checkFeasibleG, checkFeasible_eq]⟩
+    simp only [iterViolationsG, ne_eq, not_true_eq_false, if_false]
+    exact (options_eq_def skip clip labels cs r).1
+
 /-- row 1 of `demo` (`soft` x+y<=1 met, `hard` x−y>=0 violated by 1): nothing soft is violated, the one hard constraint is
     listed by `skip_satisfied`, `check_feasible` is False at tolerance 0 and True at `atol = 1`; the float test with an exact
     `fl` is the rational one; a 2-variable one-hot row satisfies its discrete constraint -/
